@@ -129,6 +129,10 @@ func replayOne(ti int, tr mbt.Trace, rep *mbt.Report) {
 	powers := powersOf(tr.Cfg)
 	byz := intsOf(tr.Cfg["Byz"])
 	maxR := int64(mbt.Int(tr.Cfg["MaxRound"]))
+	variant := ti
+	if v, ok := tr.Cfg["Variant"]; ok {
+		variant = mbt.Int(v)
+	}
 	s, err := csim.New(dir, powers, byz, maxR)
 	if err != nil {
 		rep.Fail(mbt.Failure{Trace: ti, TraceID: tr.ID, Kind: "error", Detail: "setup: " + err.Error()})
@@ -199,7 +203,7 @@ func replayOne(ti int, tr mbt.Trace, rep *mbt.Report) {
 			case "CrashTorn":
 				tornCrash[mbt.Int(st.Args[0])] = true
 				// the cut position inside the last WAL line is derived from the position in the behaviour
-				aerr = s.CrashTorn(mbt.Int(st.Args[0]), (si*37+ti*11)%97)
+				aerr = s.CrashTorn(mbt.Int(st.Args[0]), (si*37+variant*11)%97)
 			case "Restart":
 				aerr = s.Restart(mbt.Int(st.Args[0]))
 				if aerr != nil {
